@@ -138,3 +138,6 @@ Qed.
 
 Lemma In_firstn_local {A} (l : list A) k x : In x (firstn k l) -> In x l.
 Proof. intros H. rewrite <- (firstn_skipn k l). apply in_or_app. now left. Qed.
+
+Lemma In_skipn_local {A} (l : list A) k x : In x (skipn k l) -> In x l.
+Proof. intros H. rewrite <- (firstn_skipn k l). apply in_or_app. now right. Qed.
